@@ -1,6 +1,6 @@
 (* Extraction of the map-family model. ExtrOcamlBasic only: Z/positive stay Coq datatypes. *)
 From Coq Require Extraction ExtrOcamlBasic.
-From GV Require Import Map.GridIndex Map.Arr Map.GridOps Map.Setup Map.MapSg Map.Stream Map.GzGrow.
+From GV Require Import Map.GridIndex Map.Arr Map.GridOps Map.Setup Map.MapSg Map.Stream Map.GzGrow Map.BrickEnd.
 Extraction Blacklist String List Nat.
 (* `modulo` clashes with a name of the extracted arithmetic library: export it under a fixed name *)
 Definition grid_modulo := modulo.
@@ -10,4 +10,4 @@ Extraction "mapm.ml"
   reducer symmetrize_using_ops get_asu_mask nan_z
   axis_positions setup_core setup_sg grid_of_header translate_mask prepared_header prepared_header_words
   setup_sg_orig point_count step step_orig range_ok uncompress grow grow_orig
-  sg_table order.
+  sg_table order uvw_end1.
